@@ -10,6 +10,7 @@
   access walks are non-negative.
 -/
 import TrVerif.Proofs.DataTerm
+import TrVerif.Proofs.FwdChain
 import TrVerif.Props.C18
 import TrVerif.Props.Attained
 namespace Tr
@@ -152,5 +153,122 @@ theorem C04_answer (ds : Dataset) (hwf : WFData ds) (p : Params) (hp : p.forward
   | ok r => exact ⟨r, rfl, h1 r hres⟩
   | noRouting reason => exact absurd hres (h2 reason)
   | exception what => exact absurd hres (calculateSingle_no_exception ds hwf hpos hr1 hr2 hacc p hmw hmt what)
+
+
+/-! ### the two accessibility calculations -/
+
+theorem fwdScan_FCh {cx : Ctx} {C : List Conn} (w : FChainWF cx C) (single : Bool) (post : List Conn)
+    (hC : ∀ a ∈ post, a ∈ C) (hs : SortedFwd post) :
+    ∃ d, FCh cx C d (post.foldl (fwdStep cx single) (FState.init cx)) := by
+  cases post with
+  | nil => exact ⟨0, init_FCh cx C 0⟩
+  | cons c rest =>
+    apply fwdScanList_FCh w single (c :: rest) _ c.dep hC hs _ (init_FCh cx C c.dep)
+    intro a ha
+    rcases List.mem_cons.mp ha with e | e
+    · subst e; exact Int.le_refl _
+    · have := (List.pairwise_cons.mp hs).1 a e
+      simp only [fwdLt, Bool.or_eq_false_iff, Bool.and_eq_false_iff, decide_eq_false_iff_not] at this
+      omega
+
+/-- all arrival times of the timetable are clock times (≥ 0:00) -/
+def NonnegArr (ds : Dataset) : Prop := ∀ c ∈ ds.conns, 0 ≤ c.arr
+
+theorem allNodes_tail {count : Nat} (f : Nat → Outcome (Option AccNode)) (n : Nat) (r : Reason)
+    (hf : ∀ node w, f node ≠ .exception w) (what : String) :
+    (if count = 0 then (Outcome.noRouting r : Outcome (List AccNode × Nat))
+      else match collectNodes f (List.range n) [] with
+        | .ok l => .ok (l, n)
+        | .noRouting r => .noRouting r
+        | .exception w => .exception w) ≠ .exception what := by
+  by_cases hc : count = 0
+  · rw [if_pos hc]; simp
+  · rw [if_neg hc]
+    have := collectNodes_no_exception f hf (List.range n) []
+    cases hcn : collectNodes f (List.range n) [] with
+    | ok l => simp
+    | noRouting r => simp
+    | exception w => exact absurd hcn (this w)
+
+/-- **no exception (accessibility).** For every well-formed dataset whose hops take time, whose
+    stop numbers are stops of the data and whose arrival times are non-negative, every scenario
+    and EVERY accessibility query, the calculation answers with a map or with no_routing_found -
+    never with the model's `exception` outcome (a chain walk or clean-up loop without end, an
+    out-of-range `map::at`, an hour index read out of bounds). -/
+theorem calculateAllNodes_no_exception (ds : Dataset) (hwf : WFData ds) (hpos : PosHops ds) (hr1 : StopsInRange ds)
+    (hr2 : DepStopsInRange ds) (hnn : NonnegArr ds) (p : Params) (hmw : 0 ≤ p.minWait)
+    (hmt : 0 ≤ p.maxTransfer) (what : String) :
+    calculateAllNodes ds p ≠ .exception what := by
+  have hsub := connSetOf_rev_sub ds (ds.scenarioOf p)
+  have hfr := connSetOf_fwd_mem_rev ds (ds.scenarioOf p)
+  unfold calculateAllNodes calculateAllNodesCS
+  simp only
+  by_cases hfwd : p.forward = true
+  · rw [if_pos hfwd]
+    split
+    · simp
+    · cases hl : lookupPos (fwdLookup
+          (mkCtx (ds.restrict (ds.connSetOf (ds.scenarioOf p))) p (ds.connSetOf (ds.scenarioOf p))
+            (routerLookup (ds.restrict (ds.connSetOf (ds.scenarioOf p))).access p.maxAccess) [] p.time (-1)).cs.fwd
+          (mkCtx (ds.restrict (ds.connSetOf (ds.scenarioOf p))) p (ds.connSetOf (ds.scenarioOf p))
+            (routerLookup (ds.restrict (ds.connSetOf (ds.scenarioOf p))).access p.maxAccess) [] p.time (-1)).cs.fwdIdx
+          (hourOf p.time)) with
+      | none =>
+        have : (mkCtx (ds.restrict (ds.connSetOf (ds.scenarioOf p))) p (ds.connSetOf (ds.scenarioOf p))
+            (routerLookup (ds.restrict (ds.connSetOf (ds.scenarioOf p))).access p.maxAccess) [] p.time (-1)).cs.fwdIdx
+            = fwdIndex (mkCtx (ds.restrict (ds.connSetOf (ds.scenarioOf p))) p (ds.connSetOf (ds.scenarioOf p))
+            (routerLookup (ds.restrict (ds.connSetOf (ds.scenarioOf p))).access p.maxAccess) [] p.time (-1)).cs.fwd := rfl
+        rw [this] at hl
+        exact absurd hl (lookupPos_ne_none (C18_index_safe _ _).1)
+      | some start =>
+        simp only
+        have w : FChainWF (mkCtx (ds.restrict (ds.connSetOf (ds.scenarioOf p))) p (ds.connSetOf (ds.scenarioOf p))
+            (routerLookup (ds.restrict (ds.connSetOf (ds.scenarioOf p))).access p.maxAccess) [] p.time (-1))
+            (ds.connSetOf (ds.scenarioOf p)).fwd := by
+          refine ⟨fun c hc => hpos c (hsub c (hfr c hc)), ?_, hmw⟩
+          intro z f hf
+          have := footOf_mem (ds := ds.restrict (ds.connSetOf (ds.scenarioOf p))) hf
+          exact hwf.footNonneg _ this
+        obtain ⟨d, hch⟩ := fwdScan_FCh w false ((ds.connSetOf (ds.scenarioOf p)).fwd.drop start)
+          (fun a ha => List.mem_of_mem_drop ha)
+          (List.Pairwise.sublist (List.drop_sublist _ _) (connSetOf_sortedFwd ds _))
+        exact allNodes_tail _ _ _
+          (fun n wh => forwardNode_no_exception hch (fun c hc => hr2 c (hsub c (hfr c hc))) n wh) what
+  · rw [if_neg hfwd]
+    split
+    · simp
+    · cases hl : lookupPos (revLookup
+          (mkCtx (ds.restrict (ds.connSetOf (ds.scenarioOf p))) p (ds.connSetOf (ds.scenarioOf p))
+            [] (routerLookup (ds.restrict (ds.connSetOf (ds.scenarioOf p))).egress p.maxEgress) (-1) p.time).cs.rev
+          (mkCtx (ds.restrict (ds.connSetOf (ds.scenarioOf p))) p (ds.connSetOf (ds.scenarioOf p))
+            [] (routerLookup (ds.restrict (ds.connSetOf (ds.scenarioOf p))).egress p.maxEgress) (-1) p.time).cs.revIdx
+          (hourOf p.time + 1)) with
+      | none =>
+        have : (mkCtx (ds.restrict (ds.connSetOf (ds.scenarioOf p))) p (ds.connSetOf (ds.scenarioOf p))
+            [] (routerLookup (ds.restrict (ds.connSetOf (ds.scenarioOf p))).egress p.maxEgress) (-1) p.time).cs.revIdx
+            = revIndex (mkCtx (ds.restrict (ds.connSetOf (ds.scenarioOf p))) p (ds.connSetOf (ds.scenarioOf p))
+            [] (routerLookup (ds.restrict (ds.connSetOf (ds.scenarioOf p))).egress p.maxEgress) (-1) p.time).cs.rev := rfl
+        rw [this] at hl
+        exact absurd hl (lookupPos_ne_none (C18_index_safe _ _).2)
+      | some start =>
+        simp only
+        have hm : ArrMono (ds.connSetOf (ds.scenarioOf p)).rev :=
+          fun x hx y hy => conns_arrMono hwf.toWFSchedule x (hsub x hx) y (hsub y hy)
+        have hsubd : ∀ a ∈ (ds.connSetOf (ds.scenarioOf p)).rev.drop start, a ∈ (ds.connSetOf (ds.scenarioOf p)).rev :=
+          fun a ha => List.mem_of_mem_drop ha
+        have hsorted : SortedRev ([] ++ (ds.connSetOf (ds.scenarioOf p)).rev.drop start) := by
+          show List.Pairwise _ ([] ++ (ds.connSetOf (ds.scenarioOf p)).rev.drop start)
+          rw [List.nil_append]
+          exact List.Pairwise.sublist (List.drop_sublist _ _) (connSetOf_sorted ds _)
+        have hinv := revScanList_inv (cx := mkCtx (ds.restrict (ds.connSetOf (ds.scenarioOf p))) p (ds.connSetOf (ds.scenarioOf p))
+            [] (routerLookup (ds.restrict (ds.connSetOf (ds.scenarioOf p))).egress p.maxEgress) (-1) p.time) (fun _ => true) false
+          (ds.connSetOf (ds.scenarioOf p)).rev hm hmw ((ds.connSetOf (ds.scenarioOf p)).rev.drop start) []
+          (RState.init _) (by simpa using hsubd) hsorted (init_RInv _)
+        simp only [List.nil_append] at hinv
+        exact allNodes_tail _ _ _
+          (fun n wh => reverseNode_no_exception (hinv.mono_pre hsubd)
+            (timeWF_dataset hwf p hmw hmt _ _ _ _ _) (chainWF_dataset hwf hpos hr1 p _ _ _ _ _)
+            (sliceOK_dataset hwf p _ _ _ _ _) (betweenOK_dataset hwf hr2 p _ _ _ _ _)
+            (uniqueSeq_dataset hwf.toWFSchedule _) (fun c hc => hnn c (hsub c hc)) n wh) what
 
 end Tr
